@@ -3,6 +3,7 @@ package props
 import (
 	"fmt"
 	"strings"
+	"time"
 	"unsafe"
 
 	"verif/harness/core"
@@ -54,6 +55,13 @@ type BadNestedStruct struct {
 	End int32
 }
 
+// BadTimeEmbedded embeds time.Time as its first field (its method set is that of a time) and also holds a channel.
+type BadTimeEmbedded struct {
+	time.Time
+	C   chan int
+	End int32
+}
+
 var (
 	theChan = make(chan int, 1)
 	theFunc = func() {}
@@ -79,11 +87,17 @@ var badKinds = []struct {
 	{"struct with []chan field", func() interface{} { return BadChanSlice{A: 1, L: []chan int{theChan}, End: 2} }, false},
 	{"struct with map[string]func()", func() interface{} { return BadFuncMap{A: 1, M: map[string]func(){"f": theFunc}, End: 2} }, false},
 	{"nested struct with complex field", func() interface{} { return &BadNestedStruct{A: 1, P: &BadChanField{C: theChan}, End: 2} }, true},
+	{"struct embedding time.Time first, with a chan field", func() interface{} {
+		return BadTimeEmbedded{Time: time.Unix(1500000000, 0), C: theChan, End: 2}
+	}, false},
+	{"*struct embedding time.Time first, with a chan field", func() interface{} {
+		return &BadTimeEmbedded{Time: time.Unix(1500000000, 0), C: theChan, End: 2}
+	}, true},
 	{"struct with a nil chan field", func() interface{} { return &BadChanField{A: 1, End: 2} }, true},
 	{"struct with a nil func field", func() interface{} { return BadFuncField{A: 1, End: 2} }, false},
 }
 
-var badPositions = []string{"in a self-containing list inside a list", "in a self-containing map inside a list", "top", "field", "list[first]", "list[middle]", "list[last]", "map value", "map key", "nested.field", "nested.nested.field",
+var badPositions = []string{"element 4095 of 5000", "element 4096 of 5000", "element 8191 of 9000", "element 1023 of 1100", "element 65535 of 70000", "element 65536 of 70000", "last element of 70000", "in a self-containing list inside a list", "in a self-containing map inside a list", "top", "field", "list[first]", "list[middle]", "list[last]", "map value", "map key", "nested.field", "nested.nested.field",
 	"list in list", "map in list", "list in map", "top-level list element", "top-level map value", "nested.list[last]"}
 
 // place builds a value with bad at the given position; ctxChoices fill the surroundings.
@@ -116,6 +130,19 @@ func placeBad(pos string, bad interface{}, ch *explore.Chooser) interface{} {
 			m["ok"] = int32(1)
 		}
 		return m
+	}
+	var idx, total int
+	if n, _ := fmt.Sscanf(pos, "element %d of %d", &idx, &total); n == 2 || pos == "last element of 70000" {
+		if n != 2 {
+			idx, total = 69999, 70000
+		}
+		l := make([]interface{}, total)
+		for i := range l {
+			l[i] = int32(i)
+		}
+		l[idx] = bad
+		h.L = l
+		return h
 	}
 	switch pos {
 	case "in a self-containing list inside a list":
